@@ -589,7 +589,7 @@ def planBase (r : Rib) (net : Net) : Rib × Dest :=
   | some d => (r, d)
   | none => ({ r with used := allocId r.used :: r.used }, { entries := [], next := 1, id := allocId r.used })
 
-def mkPlan (rib : Rib) (dst : Dest) (addr rpid : Nat) : InsPlan :=
+def mkPlan (rib : Rib) (dst : Dest) (addr rpid sid : Nat) : InsPlan :=
   { rib, dst, oldBest := bestKey dst.entries,
     replaced := match replacedIdx addr rpid dst.entries 0 none with
       | some i => dst.entries[i]?
@@ -599,11 +599,12 @@ def mkPlan (rib : Rib) (dst : Dest) (addr rpid : Nat) : InsPlan :=
       | none => dst.entries,
     isNew := (match replacedIdx addr rpid dst.entries 0 none with
       | some i => dst.entries[i]?
-      | none => none).isNone && !(dst.entries.any fun e => sameAddr addr e && !(e.rpid == rpid)) }
+      | none => none).isNone && !(dst.entries.any fun e => sameAddr addr e && !(e.rpid == rpid)),
+    sessHas := dst.entries.any fun e => e.src.id == sid }
 
 theorem insertPlan_eq (t : Table) (src : Src) (fam : Fam) (net : Net) (rpid : Nat) :
     insertPlan t src fam net rpid =
-      mkPlan (planBase (t.rib fam) net).1 (planBase (t.rib fam) net).2 src.addr rpid := by
+      mkPlan (planBase (t.rib fam) net).1 (planBase (t.rib fam) net).2 src.addr rpid src.id := by
   unfold insertPlan planBase mkPlan
   cases h : alookup net (t.rib fam).dests <;> simp only [h] <;> rfl
 
@@ -616,9 +617,9 @@ inductive PlanSpec (dst : Dest) (addr rpid : Nat) (pl : InsPlan) : Prop where
       (hi : dst.entries[i]? = some old) (hm : matchKey addr rpid old = true)
       (hk : ∀ e ∈ dst.entries.eraseIdx i, matchKey addr rpid e = false) (hn : pl.isNew = false)
 
-theorem mkPlan_spec (rib : Rib) (dst : Dest) (addr rpid : Nat)
+theorem mkPlan_spec (rib : Rib) (dst : Dest) (addr rpid sid : Nat)
     (hn : (dst.entries.map fun e => (e.src.addr, e.rpid)).Nodup) :
-    PlanSpec dst addr rpid (mkPlan rib dst addr rpid) := by
+    PlanSpec dst addr rpid (mkPlan rib dst addr rpid sid) := by
   rcases replacedIdx_spec addr rpid dst.entries hn with ⟨h, hk⟩ | ⟨i, old, h, hi, hm, hk⟩
   · refine .fresh ?_ ?_ hk ?_
     · simp only [mkPlan, h]
@@ -640,10 +641,12 @@ theorem mkPlan_spec (rib : Rib) (dst : Dest) (addr rpid : Nat)
     · simp only [mkPlan, h]
     · simp only [mkPlan, h, hi, Option.isNone_some, Bool.false_and]
 
-theorem mkPlan_rib (rib : Rib) (dst : Dest) (addr rpid : Nat) : (mkPlan rib dst addr rpid).rib = rib := rfl
-theorem mkPlan_dst (rib : Rib) (dst : Dest) (addr rpid : Nat) : (mkPlan rib dst addr rpid).dst = dst := rfl
-theorem mkPlan_oldBest (rib : Rib) (dst : Dest) (addr rpid : Nat) :
-    (mkPlan rib dst addr rpid).oldBest = bestKey dst.entries := rfl
+theorem mkPlan_rib (rib : Rib) (dst : Dest) (addr rpid sid : Nat) : (mkPlan rib dst addr rpid sid).rib = rib := rfl
+theorem mkPlan_dst (rib : Rib) (dst : Dest) (addr rpid sid : Nat) : (mkPlan rib dst addr rpid sid).dst = dst := rfl
+theorem mkPlan_oldBest (rib : Rib) (dst : Dest) (addr rpid sid : Nat) :
+    (mkPlan rib dst addr rpid sid).oldBest = bestKey dst.entries := rfl
+theorem mkPlan_sessHas (rib : Rib) (dst : Dest) (addr rpid sid : Nat) :
+    (mkPlan rib dst addr rpid sid).sessHas = dst.entries.any fun e => e.src.id == sid := rfl
 
 /-! ## What `insert` writes -/
 
@@ -672,7 +675,7 @@ def insRib (net : Net) (pl : InsPlan) (d : Dest) : Rib :=
 
 def insTable (t : Table) (src : Src) (fam : Fam) (net : Net) (pl : InsPlan) (e : Entry) (st : Nat × Nat) : Table :=
   t.upd fam (insRib net pl (insDest t.flags net pl e)) (aset (src.addr, fam) st t.stats)
-    (if pl.isNew && src.lim.isSome then aset (src.id, fam) (atomicInc (t.ctr (src.id, fam))) t.ctrs else t.ctrs)
+    (if !pl.sessHas && src.lim.isSome then aset (src.id, fam) (atomicInc (t.ctr (src.id, fam))) t.ctrs else t.ctrs)
 
 def insChange (fam : Fam) (net : Net) (pl : InsPlan) (filtered : Bool) (es : List Entry) : Change :=
   { fam, net, destId := pl.dst.id, best := pl.oldBest != bestKey es, any := insAny pl filtered,
@@ -688,7 +691,7 @@ theorem insertCommit_eq (t : Table) (src : Src) (fam : Fam) (net : Net) (rpid : 
         (insTable t src fam net pl (newEntry pl src nh attr rpid filtered nhInv aslen) st,
          .changed (insChange fam net pl filtered (insDest t.flags net pl
             (newEntry pl src nh attr rpid filtered nhInv aslen)).entries)) := by
-  obtain ⟨rib, dst, ob, replaced, entries, isNew⟩ := pl
+  obtain ⟨rib, dst, ob, replaced, entries, isNew, sessHas⟩ := pl
   cases replaced <;> rfl
 
 /-! ## Steps that touch one prefix -/
@@ -959,7 +962,7 @@ theorem planBase_of_none {r : Rib} {net : Net} (h : alookup net r.dests = none) 
 theorem insert_eq (p : Profile) (t : Table) (src : Src) (fam : Fam) (net : Net) (rpid : Nat)
     (nh : Option Nat) (attr : Attrs) (filtered nhInv : Bool) :
     t.insert p src fam net rpid nh attr filtered nhInv =
-      if ((insertPlan t src fam net rpid).isNew &&
+      if (!(insertPlan t src fam net rpid).sessHas &&
           (match src.lim with | some max => decide (t.ctr (src.id, fam) ≥ max) | none => false)) = true then
         .ok (insertLimit t fam net (insertPlan t src fam net rpid), .limit)
       else
@@ -972,11 +975,10 @@ theorem insert_eq (p : Profile) (t : Table) (src : Src) (fam : Fam) (net : Net) 
           | .ok st => .ok (insertCommit t src fam net rpid nh attr filtered nhInv
               (insertPlan t src fam net rpid) aslen st) := rfl
 
-theorem insertLimit_eq {c g} {t : Table} (hinv : Inv c g t) (src : Src) (fam : Fam) (net : Net) (rpid : Nat)
-    (hnew : (insertPlan t src fam net rpid).isNew = true) :
+theorem insertLimit_eq {c g} {t : Table} (hinv : Inv c g t) (src : Src) (fam : Fam) (net : Net) (rpid : Nat) :
     insertLimit t fam net (insertPlan t src fam net rpid) = t := by
   have hr := hinv.rib fam
-  rw [insertPlan_eq] at hnew ⊢
+  rw [insertPlan_eq]
   cases h : alookup net (t.rib fam).dests with
   | none =>
     rw [planBase_of_none h]
@@ -985,22 +987,16 @@ theorem insertLimit_eq {c g} {t : Table} (hinv : Inv c g t) (src : Src) (fam : F
     rw [aerase_of_lookup_none h, List.erase_cons_head]
     exact setRib_rib t fam
   | some d =>
-    rw [planBase_of_some h] at hnew ⊢
+    rw [planBase_of_some h]
     have hd := hr.lookup h
-    cases mkPlan_spec (t.rib fam) d src.addr rpid hd.pathKeys with
-    | repl i old hr' he hi hm hk hn => rw [hn] at hnew; exact absurd hnew (by simp)
-    | fresh hr' he hk hn =>
-      unfold insertLimit
-      rw [he]
-      have hne : d.entries.isEmpty = false := by
-        cases hh : d.entries with
-        | nil => exact absurd hh hd.nonEmpty
-        | cons a l => rfl
-      rw [hne]
-      simp only [Bool.false_eq_true, if_false, mkPlan_rib, mkPlan_dst]
-      have : aset net { d with entries := d.entries } (t.rib fam).dests = (t.rib fam).dests := aset_same h
-      rw [this]
-      exact setRib_rib t fam
+    have hne : d.entries.isEmpty = false := by
+      cases hh : d.entries with
+      | nil => exact absurd hh hd.nonEmpty
+      | cons a l => rfl
+    show t.setRib fam (if d.entries.isEmpty = true then _ else
+      { deferring := (t.rib fam).deferring, dests := aset net d (t.rib fam).dests, used := (t.rib fam).used }) = t
+    rw [if_neg (by rw [hne]; simp), aset_same h]
+    exact setRib_rib t fam
 
 /-! ## `insert`: the invariant -/
 
@@ -1163,13 +1159,12 @@ theorem insert_sound {c g} (p : Profile) {t : Table} (hinv : Inv c g t) (src : S
   have hop : ∀ f, (Op.insert src fam net rpid nh attr filtered nhInv).isStartDeferral f = false ∧
       (Op.insert src fam net rpid nh attr filtered nhInv).isEndDeferral f = false := fun _ => ⟨rfl, rfl⟩
   rw [insert_eq]
-  by_cases hlim : ((insertPlan t src fam net rpid).isNew &&
+  by_cases hlim : (!(insertPlan t src fam net rpid).sessHas &&
       (match src.lim with | some max => decide (t.ctr (src.id, fam) ≥ max) | none => false)) = true
   · rw [if_pos hlim]
-    simp only [Bool.and_eq_true] at hlim
     refine ⟨_, _, rfl, ?_, ?_⟩
-    · rw [insertLimit_eq hinv src fam net rpid hlim.1]; exact hinv
-    · rw [insertLimit_eq hinv src fam net rpid hlim.1]; exact stepFacts_same hop rfl
+    · rw [insertLimit_eq hinv src fam net rpid]; exact hinv
+    · rw [insertLimit_eq hinv src fam net rpid]; exact stepFacts_same hop rfl
   · rw [if_neg hlim]
     have hr := hinv.rib fam
     have hpl := insertPlan_eq t src fam net rpid
@@ -1181,7 +1176,7 @@ theorem insert_sound {c g} (p : Profile) {t : Table} (hinv : Inv c g t) (src : S
       rw [hes]; exact oldEs_esInv hr net
     have spec : PlanSpec (insertPlan t src fam net rpid).dst src.addr rpid (insertPlan t src fam net rpid) := by
       rw [hpdst]
-      have := mkPlan_spec (planBase (t.rib fam) net).1 (planBase (t.rib fam) net).2 src.addr rpid
+      have := mkPlan_spec (planBase (t.rib fam) net).1 (planBase (t.rib fam) net).2 src.addr rpid src.id
         (by rw [← hpdst]; exact hesinv.pathKeys)
       rw [← hpl] at this
       exact this
@@ -1212,8 +1207,9 @@ def remRib (r : Rib) (net : Net) (dst : Dest) (entries : List Entry) : Rib :=
   if entries.isEmpty then { r with dests := aerase net r.dests, used := r.used.erase dst.id }
   else { r with dests := aset net { dst with entries := entries } r.dests }
 
-def remCtrs (t : Table) (src : Src) (fam : Fam) (entries : List Entry) : List ((Nat × Fam) × Nat) :=
-  if !entries.any (sameAddr src.addr) && src.lim.isSome then
+def remCtrs (t : Table) (src : Src) (fam : Fam) (removed : Entry) (entries : List Entry) :
+    List ((Nat × Fam) × Nat) :=
+  if removed.src.id == src.id && !(entries.any fun e => e.src.id == src.id) && src.lim.isSome then
     aset (src.id, fam) (atomicDec (t.ctr (src.id, fam))) t.ctrs
   else t.ctrs
 
@@ -1231,7 +1227,7 @@ def remQuiet (defer : Bool) (dst : Dest) (removed : Entry) (entries : List Entry
 theorem removeCommit_eq (t : Table) (src : Src) (fam : Fam) (net : Net) (dst : Dest) (removed : Entry)
     (entries : List Entry) (st : Nat × Nat) :
     removeCommit t src fam net dst removed entries st =
-      (t.upd fam (remRib (t.rib fam) net dst entries) (aset (src.addr, fam) st t.stats) (remCtrs t src fam entries),
+      (t.upd fam (remRib (t.rib fam) net dst entries) (aset (src.addr, fam) st t.stats) (remCtrs t src fam removed entries),
        if remQuiet (t.rib fam).deferring dst removed entries then .removed none
        else .removed (some (remChange fam net dst removed entries))) := by
   unfold removeCommit remRib remCtrs remChange remQuiet Table.upd
@@ -1400,7 +1396,7 @@ theorem remove_sound {c g} (p : Profile) {t : Table} (hinv : Inv c g t) (src : S
               (aset (src.addr, fam) (recvCount src.addr (t.rib fam) -
                   (if (dst.entries.eraseIdx i).any (sameAddr src.addr) then 0 else 1),
                 accCount src.addr (t.rib fam) - (if removed.filtered then 0 else 1)) t.stats)
-              (remCtrs t src fam (dst.entries.eraseIdx i))).elig fam net =
+              (remCtrs t src fam removed (dst.entries.eraseIdx i))).elig fam net =
               (dst.entries.eraseIdx i).filter Entry.eligible := by
             unfold Table.elig; rw [upd_rib_self, hlk]
             by_cases he : (dst.entries.eraseIdx i).isEmpty = true
@@ -1410,7 +1406,7 @@ theorem remove_sound {c g} (p : Profile) {t : Table} (hinv : Inv c g t) (src : S
               (aset (src.addr, fam) (recvCount src.addr (t.rib fam) -
                   (if (dst.entries.eraseIdx i).any (sameAddr src.addr) then 0 else 1),
                 accCount src.addr (t.rib fam) - (if removed.filtered then 0 else 1)) t.stats)
-              (remCtrs t src fam (dst.entries.eraseIdx i))).destId fam net =
+              (remCtrs t src fam removed (dst.entries.eraseIdx i))).destId fam net =
               if (dst.entries.eraseIdx i).isEmpty then none else some dst.id := by
             unfold Table.destId; rw [upd_rib_self, hlk]
             by_cases he : (dst.entries.eraseIdx i).isEmpty = true
